@@ -59,6 +59,9 @@ func spec_csCnt(s *ImmuStore) bool {
 
 // mayCommit / sync: one ensures clause per fact (a conjunction in a goal costs the solver minutes, see notes).
 //@ func (*ImmuStore).mayCommit
+//@   order clog_rewound_before_append: s.cLog.SetOffset before s.cLog.Append
+//@   order clog_flushed_before_frontier: s.cLog.Flush before store s.committedTxID
+//@   order clog_flushed_before_commit_ack: s.cLog.Flush before s.commitWHub.DoneUpto
 //@   divmod abstract
 //@   requires wf: spec_csWF(s)
 //@   requires elems: forall(k, 0, len(s.cLogBuf.buf), s.cLogBuf.buf[k] != nil)
